@@ -712,10 +712,11 @@ class Checker:
                         f'ResourceMap: composite key {full!r} and single '
                         f'steps reach different sub-maps (C11 territory)')
             if not ok:
+                shown = repr(want) if entry[0] == 'h' else 'a sub-snapshot'
                 self.fail('composite_path',
                           f'the map answers {got!r} to the composite key '
                           f'{full!r} ({form}), step by step the snapshot '
-                          f'gives {want!r} there', form=form, node=kind)
+                          f'gives {shown} there', form=form, node=kind)
 
     def absent_fail(self, node, form, name, ncls, exc=None, got=None):
         what = (f'raised {type(exc).__name__}: {exc}' if exc is not None
